@@ -10,11 +10,13 @@ SPEC = {
     "thorough": {"shards": 16, "budget_s": 900, "timeout_s": 1600},
     "rule": "case = (formula object parsed from a generated constraint, 2 closed trees, rewrite): rewrites = negation, NNF, "
             "NNF of the negation, DNF (deep and shallow) of the NNF, ensure_unique_bound_variables, x&x, x|-x, x&-x, x&y, x|y, "
+            "ensure_unique_bound_variables of x&y, y&x, y|x and of an n-ary conjunction (with a slice of formula pairs whose sibling "
+            "quantifiers reuse a name while quantifiers nested 2-3 levels further in carry the next fresh names v_0, v_1), "
             "n-ary ConjunctiveFormula/DisjunctiveFormula built with the public constructors (3-4 arguments, containing "
             "disjunctions) followed by NNF/DNF. Judged with ISLa's own evaluator on both sides: verdict inverted by negation, "
             "unchanged by the others, conjunction/disjunction tables; no rewrite raises. distinct = distinct (grammar, formula "
             "skeleton, rewrite)",
-    "minimum": {"quick": {"rewrite_verdicts_judged": 4000, "formulas": 100, "rw_dnf_nary": 100, "rw_neg": 150, "rw_uniq": 150, "base_true": 80, "base_false": 80},
+    "minimum": {"quick": {"rewrite_verdicts_judged": 4000, "formulas": 100, "rw_dnf_nary": 100, "rw_neg": 150, "rw_uniq": 150, "base_true": 80, "base_false": 80, "rename_cases": 20},
                 "thorough": {"rewrite_verdicts_judged": 75000, "formulas": 1600}},
     "assumptions": ["ISLa's own evaluate on both sides, as the property states; R2 on the original AST is recorded to separate "
                     "a rewrite defect from an evaluator defect", "base verdict UNKNOWN => the tree is not used"],
@@ -52,6 +54,9 @@ def judge(ctx, gname, g, m, f_ast, f2_ast, rng):
         ("neg", lambda: -x, "inv"), ("nnf", lambda: nnf(x), "same"), ("nnf_neg", lambda: nnf(-x), "inv"),
         ("dnf", lambda: L.convert_to_dnf(nnf(x)), "same"), ("dnf_shallow", lambda: L.convert_to_dnf(nnf(x), deep=False), "same"),
         ("uniq", lambda: L.ensure_unique_bound_variables(x), "same"), ("uniq_and_self", lambda: L.ensure_unique_bound_variables(x & x), "same"),
+        ("uniq_and_xy", lambda: L.ensure_unique_bound_variables(x & y), "and"), ("uniq_and_yx", lambda: L.ensure_unique_bound_variables(y & x), "and"),
+        ("uniq_or_yx", lambda: L.ensure_unique_bound_variables(y | x), "or"),
+        ("uniq_nary", lambda: L.ensure_unique_bound_variables(L.ConjunctiveFormula(y, x, y)), "and"),
         ("and_self", lambda: x & x, "same"), ("or_neg", lambda: x | -x, "T"), ("and_neg", lambda: x & -x, "F"),
         ("absorb_or", lambda: x | (x & y), "same"), ("absorb_or_rev", lambda: (y & x) | x, "same"), ("absorb_and", lambda: x & (x | y), "same"),
         ("absorb_or_nary", lambda: y | L.ConjunctiveFormula(x, y, x), "y"), ("absorb_neg_nnf", lambda: nnf(-(x & (y | x))), "inv"),
@@ -115,6 +120,31 @@ def judge(ctx, gname, g, m, f_ast, f2_ast, rng):
                 ctx.held((gname, R2.skeleton(f_ast), name), sample={"x": text[:150], "rewrite": name, "base": bx, "rewritten": got} if name in ("dnf", "neg", "uniq") else None)
 
 
+def rename_case(ctx, rng, g, m, gen):
+    """sibling quantifiers that reuse one variable name, the second with further quantifiers nested two or three levels
+    below it whose names are the ones a fresh-name generator would pick next (v_0, v_1): renaming must not capture them"""
+    reach = m.reach()
+    nts = sorted(reach["<start>"])
+    A = rng.choice(nts)
+    Bs = [b for b in nts + ["<start>"] if A in reach[b]] or ["<start>"]
+    B = rng.choice(Bs)
+    lit = gen.sample_str(A)[:6]
+    if '"' in lit or "\\" in lit:
+        lit = "a"
+    q = lambda: rng.choice(["forall", "exists"])
+    smt = lambda text, *vs: ("smt", text, sorted(vs))
+    x = (q(), A, "v", "start", None, smt(f'(= v "{lit}")', "v") if rng.random() < 0.7 else smt("(>= (str.len v) 1)", "v"))
+    if rng.random() < 0.5:
+        inner_var, chain = "v_0", lambda body: (q(), B, "w", "start", None, (q(), A, "v_0", "w", None, body))
+    else:
+        inner_var, chain = "v_1", lambda body: (q(), B, "v_0", "start", None, (q(), A, "v_1", "v_0", None, body))
+    rel = rng.choice([smt(f"(= v {inner_var})", "v", inner_var), ("not", smt(f"(= v {inner_var})", "v", inner_var)),
+                      ("pred", "same_position", [("var", "v"), ("var", inner_var)]), ("pred", "before", [("var", "v"), ("var", inner_var)])])
+    y = (q(), A, "v", "start", None, chain(rel))
+    ctx.count("rename_cases")
+    return (x, y) if rng.random() < 0.7 else (y, x)
+
+
 def run(ctx):
     rng = ctx.rng
     while ctx.running():
@@ -122,8 +152,14 @@ def run(ctx):
         g = GG.FEATURE[gname] if gname != "random" else GG.random_grammar(rng, max_nts=4)
         m = G(g)
         gen = FGen(g, rng, m)
+        if rng.random() < 0.35:
+            gen.naming = "underscore"       # x and y then share the names v, v_0, v_1, ... at different nesting depths
+            ctx.count("formulas_with_fresh_name_bait")
         f1 = gen.formula(rng.randint(0, 3), {"start": "<start>"})
+        gen._per_base = {}      # (underscore naming) y reuses x's names
         f2 = gen.formula(rng.randint(0, 2), {"start": "<start>"})
+        if rng.random() < 0.15:
+            f1, f2 = rename_case(ctx, rng, g, m, gen)
         st, v = ctx.guarded(judge, ctx, gname, g, m, f1, f2, rng, timeout=60)
         if st == "watchdog":
             ctx.inconclusive("watchdog")
